@@ -10,7 +10,7 @@ Open Scope N_scope.
 (* the shape of an acceptable escaping function; base32 has it (b32enc_alpha, b32enc_nonempty;
    injectivity: Proofs/StoreB32.v) *)
 Record esc_ok (esc : bytes -> bytes) : Prop := {
-  esc_inj : forall a b, esc a = esc b -> a = b;
+  esc_inj : forall a b, wfb a -> wfb b -> esc a = esc b -> a = b;   (* on byte strings *)
   esc_alpha : forall k, Forall b32_alpha (esc k);
   esc_nonempty : forall k, k <> [] -> esc k <> []
 }.
@@ -27,17 +27,17 @@ Qed.
 (* ------------------------------------------------------------------ injectivity *)
 
 Theorem fs_injective : forall cfg, escaping cfg ->
-  forall k1 k2 p, k1 <> [] -> k2 <> [] ->
+  forall k1 k2 p, wfb k1 -> wfb k2 -> k1 <> [] -> k2 <> [] ->
   key_len_ok (enc_key cfg k1) -> key_len_ok (enc_key cfg k2) ->
   path_for_key cfg k1 = Some p -> path_for_key cfg k2 = Some p -> k1 = k2.
 Proof.
-  intros cfg HE k1 k2 p N1 N2 L1 L2 P1 P2.
+  intros cfg HE k1 k2 p W1 W2 N1 N2 L1 L2 P1 P2.
   destruct (path_for_key_plain cfg k1 L1 (esc_plain cfg k1 HE N1)) as [c1 [E1 _]].
   destruct (path_for_key_plain cfg k2 L2 (esc_plain cfg k2 HE N2)) as [c2 [E2 _]].
   rewrite E1 in P1. rewrite E2 in P2. inversion P1. inversion P2. subst p.
   apply app_inv_head in H1. apply app_inj_tail in H1. destruct H1 as [_ H1].
   destruct HE as [Q E]. unfold enc_key in H1. rewrite Q in H1.
-  symmetry. apply (esc_inj _ E). auto.
+  apply (esc_inj _ E); auto.
 Qed.
 
 (* ------------------------------------------------------------------ containment *)
